@@ -100,6 +100,7 @@ func init() {
 			maxprog(hs(pkgRC, "VerifC10TwoCallers", 2, "two concurrent callers of the real Server.Invoke + a following sequential one; stub sandbox; all schedules with <=2 delays", "refused", "both-served-sequentially")),
 			twoCallers,
 			twoCallersFailure,
+			orch(pkgRC, "VerifC05SlowStateGetter", 1, "a late completion report of a timed-out invocation does not end the next invocation early (which would admit a further caller)", "late-done", "done"),
 		},
 		thorough: []*harnessSpec{
 			maxprog(hs(pkgRC, "VerifC10TwoCallers", 3, "as quick with <=3 delays", "refused", "both-served-sequentially")),
@@ -154,6 +155,7 @@ func init() {
 		orch(pkgRapid, "VerifC03Init0I1", 2, "1 internal extension only", "done"),
 		orch(pkgRapid, "VerifC03Held2IS", 1, "any ONE party (runtime, either extension) is held back before register / before its first next until nothing else can happen: meanwhile the runtime is not started (register), initialisation is not complete and nobody is served (next)", "held-register", "held-init", "done"),
 		orch(pkgRapid, "VerifC03Held1I1", 1, "held-back party with an internal extension", "held-init", "done"),
+		orch(pkgRapid, "VerifC03LateInternal", 2, "an internal extension registers only when the runtime has issued its first next (the window in which registration is being closed): accepted => awaited before initialisation completes, else refused", "late-internal", "done"),
 		orch(pkgRC, "VerifFullTimeoutExt", 1, "history: init with an extension, timeout reset, re-initialisation inside the next invocation: in EVERY generation the runtime is started only after every launched extension registered", "scenario-done"),
 		orch(pkgRC, "VerifFullExitExt", 1, "history: runtime exit with an extension, reset, re-initialisation", "scenario-done"),
 		orch(pkgRC, "VerifC13StaleIdentifier", 0, "after a reset, requests carrying the identifier an external or an internal extension of the PREVIOUS generation was given (next / init error / exit error, before or while the new invocation is with its runtime) are refused with 403 and do not touch the barriers of the new generation", "stale-refused", "done"),
@@ -167,6 +169,8 @@ func init() {
 		orch(pkgRapid, "VerifC04Invoke2_I1", 2, "2 invocations, 1 external + 1 internal extension", "done"),
 		orch(pkgRapid, "VerifC04Held2_2", 1, "any ONE party is held back before returning to next until nothing else can happen: the invocation is not complete while the runtime or an INVOKE subscriber has not asked for next", "held-invoke", "done"),
 		orch(pkgRapid, "VerifC04Held2_I1", 1, "held-back party, external + internal extension", "held-invoke", "done"),
+		orch(pkgRapid, "VerifC04Held0_I1", 1, "held-back party; the ONLY INVOKE subscriber is an internal extension", "held-invoke", "done"),
+		orch(pkgRapid, "VerifC04Held1S_I1", 1, "held-back party; internal INVOKE subscriber + external SHUTDOWN-only extension", "held-invoke", "done"),
 		orch(pkgRC, "VerifC13StaleIdentifier", 0, "after a reset, requests carrying the identifier an external or an internal extension of the PREVIOUS generation was given (next / init error / exit error, before or while the new invocation is with its runtime) are refused with 403 and do not touch the barriers of the new generation", "stale-refused", "done"),
 	}
 	c04t := append(withD(c04, 2, 2000000), orch(pkgRapid, "VerifC04Invoke3_1", 2, "3 invocations, 1 extension", "done"))
@@ -206,6 +210,7 @@ func init() {
 		srvSeq("VerifC01Sequence1", 2, "Server.Invoke against the stub sandbox incl. stall", "timeout"),
 		expiry(orch(pkgRC, "VerifC05ExpiryRaceStub", 3, "stub sandbox, the function-timeout timer may fire at ANY point of two healthy invocations (response-versus-expiry): each ends with its response or the timeout outcome and never disturbs the next one", "expiry-won", "response-won")),
 		orch(pkgRC, "VerifFullRace2", 2, "FULL stack, timer may fire at any point of two healthy invocations after init", "expiry-won", "respond", "scenario-done"),
+		orch(pkgRC, "VerifFullTimeoutExtIgnoreTerm", 1, "FULL stack: a stalled runtime that also ignores SIGTERM, with an extension: it is killed before the timeout answer is given", "timeout", "scenario-done"),
 		orch(pkgRC, "VerifC05SlowStateGetter", 2, "stub sandbox: the completion report of invocation A is delayed (slow internal-state getter) past A's timeout reset and B's reservation: the late DONE is discarded, B ends with its own response", "late-done", "done"),
 		frontEnd()[0],
 		expiry(orch(pkgRC, "VerifFullRaceInit2", 1, "FULL stack, timer may fire at any point INCLUDING the lazy initialisation: a timed-out invocation is never dispatched behind its reset (the next runtime gets the next event)", "expiry-before-dispatch", "respond", "scenario-done")),
@@ -219,8 +224,9 @@ func init() {
 		orch(pkgRC, "VerifFullExitThenStall", 2, "FULL stack: exit, then a stall in the next generation", "exit", "timeout", "scenario-done"),
 		orch(pkgRC, "VerifC06RuntimeFault", 1, "runtime fault at each of 5 protocol steps {during init, init/error report, after receiving the invocation, after the response, idle in next} x exit {0, 1, SIGSEGV}; 3 invocations: failure status (never the timeout), body = delivered response / own init-error payload / nothing (unreported init fault) / JSON naming Runtime.ExitError; recovery", "body-delivered-response", "body-init-error-payload", "body-none", "body-first-fault", "who-0-point-4-kind-2", "done"),
 		orch(pkgRC, "VerifC06RuntimeFaultExt", 1, "as above with one healthy extension", "body-first-fault", "done"),
-		orch(pkgRC, "VerifC06ExtensionFault", 1, "extension fault at each of 5 steps {before register, after register, after first event, init/error report, exit/error report} x exit {0, 1, signal}, function finished or still running when it happens: failure status, body = delivered response / nothing / JSON naming Extension.Crash (Extension.* after a report)", "body-delivered-response", "body-none", "body-first-fault", "who-1-point-4-kind-2", "done"),
+		orch(pkgRC, "VerifC06ExtensionFault", 1, "extension fault at each of 6 steps {before register, after register, after first event, init/error report, exit/error report, idle between two invocations} x exit {0, 1, signal}, function finished or still running when it happens: failure status, body = delivered response / nothing / JSON naming Extension.Crash (Extension.* after a report)", "body-delivered-response", "body-none", "body-first-fault", "who-1-point-4-kind-2", "done"),
 		orch(pkgRC, "VerifC06ExtensionFault2", 1, "extension fault with a second, healthy extension", "body-first-fault", "done"),
+		orch(pkgRC, "VerifC08SettledExt", 0, "the JSON error names the first fault of ITS generation: a report recorded during the previous reset does not mask it (differential)", "prefix-6", "done"),
 	}
 	checkRegistry = append(checkRegistry, &checkSpec{id: "C06", level: "other", quick: c06, thorough: withD(c06, 2, 3000000), assume: orchAssume, outside: append(orchOutside, "launch failures of extensions (C03/C09 harnesses cover the barrier and shutdown side)", "faults in later generations or of two processes at once", "the exact errorType after an extension's own exit/error report (any Extension.* accepted)")})
 }
@@ -234,6 +240,8 @@ func init() {
 		orch(pkgRapid, "VerifC09Shutdown1", 1, "explicit shutdown, 1 extension, same behaviour choices", "returned", "with-extensions"),
 		orch(pkgRapid, "VerifC09Reset1Failure", 1, "failure reset, 1 extension", "returned"),
 		orch(pkgRapid, "VerifC09Reset2", 1, "timeout reset, 2 extensions: all 5x5 behaviour pairs x 2 runtime behaviours", "returned", "with-extensions"),
+		orch(pkgRapid, "VerifC09Reset0Internal", 1, "the only registered extension is an INTERNAL one: it counts as an extension (runtime gets TERM first)", "with-extensions", "returned"),
+		orch(pkgRC, "VerifFullStallThenStall", 1, "the choreography also works for a LATER generation: timeout reset, re-initialisation, second timeout reset (everything reaped, no wedge)", "timeout", "scenario-done"),
 		orch(pkgRapid, "VerifC09AfterUnreaped", 1, "a reset that cannot reap a process (its exit is never reported) returns after the fixed 2 s grace; a following reset and shutdown return at once", "gave-up", "second-reset-returned", "done"),
 	}
 	c09t := append(withD(c09, 2, 3000000), orch(pkgRapid, "VerifC09Shutdown2", 2, "explicit shutdown, 2 extensions", "returned"))
@@ -250,6 +258,8 @@ func init() {
 		orch(pkgRC, "VerifFullExitExt", 1, "runtime exit with an extension", "scenario-done"),
 		orch(pkgRapid, "VerifC03Init1I1", 1, "init with external + internal extension, then an invocation", "done"),
 		orch(pkgRC, "VerifFullRespondExit", 2, "the runtime posts its response and exits instead of polling again: no success runtime-done for that invocation", "respond-exit", "scenario-done"),
+		orch(pkgRC, "VerifC06RuntimeFault", 1, "runtime faults at every protocol step incl. while idle between invocations: the event monitor over all these traces", "done"),
+		orch(pkgRapid, "VerifC15ResetRuntimeDone", 1, "orchestrator level with the reset reasons failure/timeout: healthy A, B's runtime exits + failure reset, C's inline initialisation fails + failure reset, healthy D: every runtime-done (also those emitted by a reset) carries the id of the invocation it follows", "done"),
 		orch(pkgRC, "VerifC08SettledExt", 0, "error statuses carry the type of the first fault of THEIR generation: after a reset during which an extension reported exit/error, a runtime exit of the next generation is reported as Runtime.ExitError (differential against a fresh instance)", "prefix-6", "done"),
 	}
 	checkRegistry = append(checkRegistry, &checkSpec{id: "C15", level: "other", quick: c15, thorough: withD(c15, 2, 3000000),
@@ -263,6 +273,7 @@ func init() {
 	c12 := []*harnessSpec{
 		orch(pkgRC, "VerifC12Script4", 0, "FULL stack: the first runtime executes every script of 4 calls over {next, response(in-flight), response(stale), error(in-flight), init/error, non-existing call (unknown route 404 / wrong method 405 / restore call outside snapshot mode 404)} sent through the real chi router, against a reference automaton, while two invocations arrive", "next-new", "next-same", "accepted", "refused-state", "init-error", "init-error-refused", "script-done"),
 		orch(pkgRC, "VerifFullIllegal", 2, "FULL stack: illegal calls interleaved with legal ones, schedules with <=2 delays", "case-variant", "illegal", "scenario-done"),
+		orch(pkgRC, "VerifFullTimeoutThenOK", 1, "the lifecycle starts afresh in a later generation: after a timeout reset the new runtime's first next is legal, blocks and delivers the invocation", "timeout", "respond", "scenario-done"),
 		orch(pkgRapid, "VerifC18Restore", 1, "snapshot mode: restore/next, restore/error, legacy init/error, stalled hook, no restore poll, exit (routes exist only in snapshot mode is not checked)", "hook-ok", "hook-error", "hook-timeout", "no-restore-poll", "exit"),
 	}
 	c12t := []*harnessSpec{
@@ -280,6 +291,7 @@ func init() {
 		orch(pkgRC, "VerifC13Internal3", 0, "the same for an internal extension registering from inside the runtime", "registered", "script-done"),
 		orch(modulePath+"/lambda/core", "VerifC13Limit", 0, "registration service: k = 0..10 external extensions, then registrations chosen among {fresh internal name, name of an external, repeated internal name}: at most ten extensions, ErrTooManyExtensions for the eleventh, name collisions across kinds refused, refused registrations change no count", "limit", "collision", "duplicate", "done"),
 orch(pkgRC, "VerifC13StaleIdentifier", 1, "after a reset, requests carrying the identifier an external or an internal extension of the PREVIOUS generation was given (next / init error / exit error, before or while the new invocation is with its runtime) are refused with 403 and do not touch the barriers of the new generation", "stale-refused", "done"),
+		orch(pkgRC, "VerifC13ExitWhileParkedInternal", 1, "the same for an internal extension", "exit-reported", "parked-next-answered"),
 		orch(pkgRC, "VerifC13ExitWhileParked", 1, "exit/error reported while another request of the extension is parked in next: the parked next is refused when released", "exit-reported", "parked-next-answered"),
 	}
 	c13t := []*harnessSpec{
@@ -359,6 +371,7 @@ func init() {
 		orch(pkgRC, "VerifC07Runtime2ThenExit", 0, "as above, the second generation exits", "faulty-generations-gone", "done"),
 		orch(pkgRC, "VerifFullStallThenStall", 1, "two consecutive timeouts (late exit notifications of the old generation)", "timeout", "scenario-done"),
 		orch(pkgRC, "VerifC05SlowStateGetter", 1, "a completion report delayed past the timeout reset and the next reservation does not give the next caller an empty success", "late-done", "done"),
+		orch(pkgRC, "VerifC13StaleIdentifier", 0, "after a reset, requests carrying the identifier an external or an internal extension of the PREVIOUS generation was given are refused with 403; an internal extension registers again under its name in the new generation; the new invocation completes", "stale-refused", "done"),
 	}
 	c07t := []*harnessSpec{
 		orch(pkgRC, "VerifC07Runtime3", 1, "runtime scripts of 3 calls", "done"),
@@ -388,6 +401,7 @@ func init() {
 		orch(pkgRC, "VerifC08LateExt", 0, "late notification, one extension (base schedule)", "done"),
 		orch(pkgRC, "VerifC08InternalFirstFresh", 1, "reference: on a fresh instance an internal extension may ask for its first event before the runtime's first next", "internal-first", "done"),
 		orch(pkgRC, "VerifC08InternalFirstAfterReset", 1, "a party that exists only in a LATER generation: after a generation without extensions and a reset the same initialisation completes (barrier counts do not survive the reset)", "internal-first", "done"),
+orch(pkgRC, "VerifC13StaleIdentifier", 0, "after a reset, requests carrying the identifier an external or an internal extension of the PREVIOUS generation was given are refused with 403; an internal extension registers again under its name in the new generation; the new invocation completes", "stale-refused", "done"),
 		orch(pkgRC, "VerifC05SlowStateGetter", 1, "interop-server leftover: the DONE of an invocation of the old generation posted after the reset and the next reservation is discarded", "late-done", "done"),
 	}
 	c08t := []*harnessSpec{
